@@ -378,6 +378,93 @@ def check_files(case):
 # ----------------------------------------------------------------------------- facet: volume-response matrix
 
 
+# ----------------------------------------------------------------------------- facet: one large 2D configuration
+
+
+@st.composite
+def large_cloud_st(draw):
+    """One frame of 66 000 .. 72 000 particles in 2D (thorough tier): N (N + 1) exceeds 2^32, the size at which
+    packed 32-bit keys, id products and row offsets overflow (seeded C20-C).  Uniform random points in a box of the
+    matching area, any origin kind."""
+    N = draw(st.integers(66000, 72000))
+    return draw(cloud_st(2, N, N, frames=(1, 1), lmax=30.0)) | {"large": True}
+
+
+def _rescale_large(case):
+    """cloud_st draws box lengths for tens of particles; give the large cloud unit number density."""
+    N = len(case["types"])
+    L0 = np.diag(case["cell"]["H"])
+    fac = np.sqrt(N / float(np.prod(L0)))
+    lo0 = case["cell"]["lo"]
+    cell = dict(case["cell"], H=np.diag(L0 * fac), lo=lo0 * fac)
+    pos = [(p - lo0) * fac + cell["lo"] for p in case["pos"]]
+    return dict(case, cell=cell, cells=[cell], pos=pos)
+
+
+def check_large(case):
+    case = _rescale_large(case)
+    N = len(case["types"])
+    pos, L, lo = case["pos"][0], np.diag(case["cell"]["H"]), case["cell"]["lo"]
+    from scipy.spatial import cKDTree
+    wrapped = (pos - lo) % L
+    dmin = cKDTree(wrapped, boxsize=L).query(wrapped, k=2)[0][:, 1].min()
+    if dmin < 1e-3:
+        return {"nontrivial": False, "tags": ["excluded-near-coincident"], "extra": {"excluded": 1}}
+    snaps = _snapshots(case)
+    out = os.path.join(os.getcwd(), "voro")
+    cal_neighbors(snaps, outputfile=out)
+    nb = parse_framed(out + ".neighbor.dat", "neighborlist", N, 1, "neighbour file")[0]
+    wt = parse_framed(out + ".edgelength.dat", "edgelengthlist", N, 1, "bond-weight file")[0]
+    ov = parse_overall(out + ".overall.dat", N, 1)[0]
+    cn = np.array([len(r) for r in nb])
+    require(np.array_equal(cn, [len(r) for r in wt]), "coordination numbers of the neighbour and weight files differ")
+    require(np.array_equal(cn, [c for c, _ in ov]), "coordination numbers of the neighbour and overall files differ")
+    ii = np.repeat(np.arange(N), cn)
+    jj = np.concatenate([np.asarray(r, dtype=np.int64) for r in nb]) - 1
+    ww = np.concatenate([np.asarray(r, dtype=float) for r in wt])
+    require(jj.min() >= 0 and jj.max() < N, f"neighbour ids outside 1..N: {jj.min() + 1}..{jj.max() + 1}")
+    require(np.all(ww >= 0), "negative bond weight")
+    # symmetric as a multiset, weights equal in both directions.  Near-degenerate facets (below wtol x spacing) may
+    # be seen from one side only; a facet within 1e-5 of that threshold may fall on different sides of it in the two
+    # directions, hence the two thresholds.
+    from collections import Counter
+    wtol = 2e-3
+    strong = ww >= wtol + 1e-5
+    weak = ww >= wtol - 1e-5
+    have = Counter(zip(jj[weak].tolist(), ii[weak].tolist()))          # reverse bonds available (as (i, j))
+    need = Counter(zip(ii[strong].tolist(), jj[strong].tolist()))
+    missing = [(k, c - have.get(k, 0)) for k, c in need.items() if have.get(k, 0) < c]
+    require(not missing, lambda: f"neighbour relation not symmetric: {len(missing)} regular facets without a reverse "
+                                 f"entry, e.g. ids {[(a + 1, b + 1) for (a, b), _ in missing[:5]]}")
+    # weights: sort the bonds of each direction by (i, j, w) and compare where the multisets of pairs coincide
+    f = np.lexsort((ww[strong], jj[strong], ii[strong]))
+    fi, fj, fw = ii[strong][f], jj[strong][f], ww[strong][f]
+    rev = {}
+    for a, b, w in zip(jj[weak].tolist(), ii[weak].tolist(), ww[weak].tolist()):
+        rev.setdefault((a, b), []).append(w)
+    worst = 0.0
+    for a, b, w in zip(fi.tolist(), fj.tolist(), fw.tolist()):
+        worst = max(worst, min(abs(w - x) for x in rev[(a, b)]))
+    require(worst <= 2.1e-6, f"bond weights differ by direction by {worst!r}")
+    vols = np.array([v for _, v in ov])
+    V = float(np.prod(L))
+    require(np.all(vols > 0), "non-positive cell area")
+    require(abs(vols.sum() - V) <= N * 5.1e-7 + 1e-5 * V, f"cell areas sum to {vols.sum()!r}, box area {V!r}")
+    with open(out + ".neighbor.dat") as fh:
+        a = arr("read_neighbors(large file)", read_neighbors(fh, N, Nmax=int(cn.max()) + 2), ndim=2)
+    require(a.shape == (N, 1 + int(cn.max())), f"read_neighbors: shape {a.shape} for max cn {int(cn.max())}")
+    require(np.array_equal(a[:, 0], cn), "read_neighbors: coordination numbers differ from the file")
+    pick = np.linspace(0, N - 1, 400).astype(int)
+    for i in pick:
+        require(np.array_equal(a[i, 1:1 + cn[i]], np.asarray(nb[i], dtype=int) - 1), f"read_neighbors: row of id {i + 1} differs")
+    return {"nontrivial": True, "tags": ["d2", f"N>2^16", "origin-" + case["cell"]["origin"], case["kind"]],
+            "extra": {"bonds": int(len(ii))}}
+
+
+def describe_large(case):
+    return {"N": int(len(case["types"])), "kind": case["kind"], "origin": case["cell"]["origin"]}
+
+
 @st.composite
 def volmat_st(draw):
     d = draw(st.sampled_from([2, 2, 3]))
@@ -504,6 +591,12 @@ FACETS = [
           rule="2D; see RULE"),
     Facet("files3d", cloud_st(3, 20, 60), check_files, quick=80, thorough=4000, describe=describe, shards_quick=4,
           rule="3D; see RULE"),
+    Facet("files2d_medium", cloud_st(2, 600, 1500, frames=(1, 2), lmax=30.0), check_files, quick=2, thorough=48,
+          describe=describe, rule="2D, N 600..1500 (all checks of files2d incl. the Qhull reference); see RULE"),
+    Facet("files2d_large", large_cloud_st(), check_large, quick=1, thorough=6, shards_thorough=2, describe=describe_large,
+          thorough_budget_s=3000.0,
+          rule="one frame of 66 000..72 000 particles in 2D (N (N+1) > 2^32): file structure, "
+               "coordination numbers, symmetry and weights of all regular facets, area sum, reader hand-off"),
     Facet("volmat", volmat_st(), check_volmat, quick=40, thorough=1500, describe=describe, shards_quick=4,
           rule="N 8..16; requested frame index 0..F-1; non-trivial = frame index >= 1 or origin != 0"),
 ]
